@@ -167,6 +167,32 @@ func (e *Env) validateSolved(msg *wire.MsgBlock, height int32) error {
 	return e.Chain.CheckConnectBlockTemplate(blk)
 }
 
+// witnessRoot is the BIP141 witness merkle root computed without btcd's merkle code: the
+// leaves are the wtxids (all zero for the coinbase), a level with an odd number of
+// nodes repeats its last node.
+func witnessRoot(blk *wire.MsgBlock) chainhash.Hash {
+	level := make([]chainhash.Hash, len(blk.Transactions))
+	for i, tx := range blk.Transactions {
+		if i > 0 {
+			level[i] = tx.WitnessHash()
+		}
+	}
+	for len(level) > 1 {
+		if len(level)%2 == 1 {
+			level = append(level, level[len(level)-1])
+		}
+		next := make([]chainhash.Hash, len(level)/2)
+		for i := range next {
+			var b [64]byte
+			copy(b[:32], level[2*i][:])
+			copy(b[32:], level[2*i+1][:])
+			next[i] = chainhash.DoubleHashH(b[:])
+		}
+		level = next
+	}
+	return level[0]
+}
+
 func b2s(b bool) string { return tlaBool(b) }
 
 func seqInts(x []int64) string {
@@ -268,6 +294,12 @@ func (tc *TemplateChecker) observe(e *Env, vi int) (string, map[string]any) {
 		root := blockchain.CalcMerkleRoot(blk.Transactions(), true)
 		var pre [64]byte
 		copy(pre[:32], root[:])
+		if !bytes.Equal(chainhash.DoubleHashB(pre[:]), t.WitnessCommitment) {
+			commitOK = false
+		}
+		// ... and once more with a witness merkle root computed here (BIP141)
+		wroot := witnessRoot(t.Block)
+		copy(pre[:32], wroot[:])
 		if !bytes.Equal(chainhash.DoubleHashB(pre[:]), t.WitnessCommitment) {
 			commitOK = false
 		}
